@@ -477,6 +477,9 @@ func runC11(r *kit.Run, n, t, D, V int, dv deviation, allOrders bool) {
 		site := PanicSite([]byte(p.Stack))
 		r.Violation("C11/machine-crashed/"+dv.Kind, fmt.Sprintf("%s: the airgapped machine of participant %d crashed while processing %s (in %s): %v — it must refuse the deal and report an error", label, node, op.Type, site, p.V), map[string]interface{}{"scenario": label, "trace": s.Trace()})
 	}
+	run.OnRefusedResult = func(s *worldx.State, node int, op *types.Operation, apiErr error) {
+		r.Violation("C11/honest-answer-cannot-be-posted/"+dv.Kind, fmt.Sprintf("%s: the node of participant %d cannot post what its machine answered to %s (%v): nobody learns of it, the round is not cancelled", label, node, op.Type, apiErr), map[string]interface{}{"scenario": label, "trace": s.Trace()})
+	}
 	run.Setup(r)
 	defer run.Close()
 	k := run.K
